@@ -14,7 +14,7 @@ RECURSIVE PickN(_, _, _)
 PickN(S, n, k) == IF n = 0 \/ S = {} THEN <<>>
                   ELSE LET x == Pick(S, R(k)) IN <<x>> \o PickN(S \ {x}, n - 1, k + 1)
 Blank == [kind |-> "", name |-> "", srcs |-> <<>>, libs |-> <<>>, ins |-> <<>>, nouts |-> 1,
-          always |-> FALSE, deps |-> <<>>, dist |-> TRUE]
+          always |-> FALSE, deps |-> <<>>, dist |-> TRUE, pch |-> FALSE]
 MkSrcs(P, k) ==
   LET fs == PickN({"s1", "s2", "s3"}, 1 + Below(R(k), 2), k + 1)
       gens == Kinds(P, {"step"})
@@ -29,9 +29,11 @@ MkDecl(P, i) ==
       linked == Kinds(P, {"exe", "slib", "shlib"})
       copied == UNION { FilesOf(P[j].ins) : j \in { x \in 1..Len(P) : P[x].kind = "copy" } }
       twoout == { P[j].name : j \in { x \in 1..Len(P) : P[x].kind = "step" /\ P[x].nouts = 2 } }
-      hdrs == IF twoout # {} /\ Below(R(9), 3) = 0 THEN <<T(Pick(twoout, R(10)))>> ELSE <<>>
-      exe == [Blank EXCEPT !.kind = "exe", !.name = nm, !.srcs = MkSrcs(P, 10),
-                           !.libs = PickN(libsA, Below(R(2), 3), 20), !.ins = hdrs] IN
+      hdrs == IF twoout # {} /\ Below(R(9), 2) = 0 THEN <<T(Pick(twoout, R(10)))>> ELSE <<>>
+      exe0 == [Blank EXCEPT !.kind = "exe", !.name = nm, !.srcs = MkSrcs(P, 10),
+                            !.libs = PickN(libsA, Below(R(2), 3), 20), !.ins = hdrs]
+      \* pch='<header name>' makes bfg9000 create one pch step per object: only with a single source
+      exe == [exe0 EXCEPT !.pch = (Len(exe0.srcs) = 1 /\ Below(R(11), IF hdrs # <<>> THEN 4 ELSE 16) < 3)] IN
   IF c <= 3 THEN exe
   ELSE IF c <= 6 THEN [Blank EXCEPT !.kind = (IF c = 6 THEN "shlib" ELSE "slib"), !.name = nm, !.srcs = MkSrcs(P, 10),
                                     !.libs = PickN(libsA, Below(R(2), 2), 20), !.ins = hdrs]
